@@ -298,7 +298,10 @@ func c06Corners() []*GenomeSpec {
 	// two modules, one of them disabled; and a genome with unsorted nodes and genes
 	two := modularSeed(true)
 	two.Modules = append(two.Modules, ModuleSpec{Innov: 9, Mut: 2.5, En: false, NodeID: 8, Act: 22, Trait: 2, Inputs: []int{2, 5}, Outputs: []int{6, 4}, InW: []float64{1, 1}, OutW: []float64{1, 1}})
-	return []*GenomeSpec{a, b, d, modularSeed(true), modularSeed(false), two, unsortedSeed()}
+	// self-loop genes that are NOT flagged recurrent (legal for the readers and constructors), with and without a trait
+	loops := evolvedSeed()
+	loops.Genes = append(loops.Genes, GeneSpec{In: 4, Out: 4, W: 0.7, Innov: 10, Mut: 0.7, En: true, Trait: 0}, GeneSpec{In: 6, Out: 6, W: -2, Innov: 11, Mut: 1, En: false, Trait: 2})
+	return []*GenomeSpec{a, b, d, modularSeed(true), modularSeed(false), two, unsortedSeed(), loops}
 }
 
 func runC06(c *Ctx) {
